@@ -35,7 +35,7 @@ CANARIES = [
         "id": "C20-origin-flag-on-any-cow",
         "prop": "C20",
         "what": "ORIGIN flag test uses the wrong relativity (absolute zones never get it)",
-        "edits": [{"file": B, "old": "        if self.zone.relativize:\n            return name == dns.name.empty\n        else:\n            return name == self.zone.origin\n", "new": "        return name == dns.name.empty\n"}],
+        "edits": [{"file": B, "old": "        if self.zone.relativize:\n            return name == dns.name.empty\n        else:\n", "new": "        if True:\n            return name == dns.name.empty\n        else:\n"}],
     },
     {
         "id": "C20-delete-node-keeps-index",
